@@ -16,7 +16,7 @@ from fractions import Fraction
 from sim import core, repo, world
 from sim.core import OK, VIOLATION, DISCARD, sub_rng
 
-STEP_BUDGET = 4_000_000
+STEP_BUDGET = 2_000_000
 
 
 class PullBudgetExceeded(BaseException):
@@ -264,9 +264,9 @@ def m_truthy_idx(s):
 CAT = {}
 
 
-def entry(name, text, a, b, model, needs="num", keeps=(), out="num", first_only=False):
+def entry(name, text, a, b, model, needs="num", keeps=(), out="num", first_only=False, max_n=None, last_only=False):
     CAT[name] = dict(name=name, text=text, a=a, b=b, model=model, needs=needs, keeps=set(keeps), out=out,
-                     first_only=first_only)
+                     first_only=first_only, max_n=max_n, last_only=last_only)
 
 
 ARITH = dict(needs="arith", out="same")
@@ -304,7 +304,7 @@ for _k in (1, 2, 3, 4):
     entry(f"chunks{_k}", f"{_k}ẇ", _k, 0, m_chunks(_k), needs="any", out="list", keeps=("inj",))
 entry("flatten", "f", 1, 0, m_flatten, needs="nonempty", out="num")
 entry("enumerate", "ė", 1, 0, m_enumerate, needs="any", out="list", keeps=("inj",))
-entry("prepend0", "0p", 1, 0, m_prepend0, needs="any", out="same")
+entry("prepend0", "0p", 1, -1, m_prepend0, needs="any", out="same")  # the first item needs nothing from the source
 entry("append0", "0 J", 1, 0, m_ident, needs="any", out="same", keeps=("inj", "consec"))
 entry("merge_nat", "Þ∞ J", 1, 0, m_ident, needs="any", out="same", keeps=("inj", "consec"))
 for _k in (0, 1, 2, 3, 5, 8):
@@ -327,6 +327,17 @@ entry("pair_flatten", ": \" f", 1, 0, m_ident, needs="num", out="num", keeps=("i
 entry("nested_inf_flatten", "ƛ Þ∞ + ; f", 1, 0, lambda s: (next(iter([x])) + i + 1 for x in itertools.islice(s, 1) for i in itertools.count()),
       needs="num", out="num", first_only=True)
 entry("wrap_head", "w h", 1, 0, m_ident, needs="any", out="same", keeps=("inj", "consec"))
+# transformations that can only ever produce max_n items from this source: the LAST available item must be reachable
+# without looking for one more (asking for more than max_n items is a legitimate hang and is never demanded)
+entry("filter_le5", "λ5≤;F", 1, 0, m_filter(lambda x: x <= 5), needs="consec", out="num", first_only=True, last_only=True, max_n=5)
+entry("mod7_uniq", "7 % U", 1, 0, lambda s: (x % 7 for x in itertools.islice(s, 7)), needs="consec", out="num", first_only=True,
+      last_only=True, max_n=7)
+entry("filter_le1", "λ1≤;F", 1, 0, m_filter(lambda x: x <= 1), needs="consec", out="num", first_only=True, last_only=True, max_n=1)
+# a sparse head: the first item is far away, everything after it is dense (offsets must not be paid before they are due)
+entry("filter_gt50", "λ50>;F", 1, 50, m_filter(lambda x: x > 50), needs="consec", out="num", keeps=("inj", "consec"), first_only=True)
+# indexing by an INFINITE list of indices
+entry("index_inf", "Þ∞ İ", 1, 1, m_drop(1), needs="any", out="same", keeps=("inj", "consec"))
+entry("index_inf2", "Þ∞ 2 * İ", 2, 1, lambda s: itertools.islice(s, 2, None, 2), needs="any", out="same", keeps=("inj",))
 entry("map_inf_head", "ƛ Þ∞ + ; ƛ h ;", 1, 0, m_map(lambda x: x + 1), needs="num", out="num", keeps=("inj", "consec"))
 entry("zip_shifted", ": › Z", 1, 0, lambda s: ([x, x + 1] for x in s), needs="num", out="list", keeps=("inj",))
 entry("map_sum", "ƛ∑;", 1, 0, m_mapsum, needs="list", out="num")
@@ -346,7 +357,7 @@ entry("mul_fin", "⟨7|8|9⟩ *", 1, 0, m_arith_fin(lambda x, f: x * (f or 0)), 
 entry("sub_fin", "⟨7|8|9⟩ -", 1, 0, m_arith_fin(lambda x, f: x - (f or 0)), needs="num")
 entry("il_fin", "⟨7|8|9⟩ Y", 1, 1, m_il_fin(False), needs="any", out="mixed")
 entry("il_fin_l", "⟨7|8|9⟩ $ Y", 1, 1, m_il_fin(True), needs="any", out="mixed")
-entry("prepend_fin", "⟨7|8|9⟩ $ J", 1, 0, m_prepend_fin, needs="any", out="mixed")
+entry("prepend_fin", "⟨7|8|9⟩ $ J", 1, -3, m_prepend_fin, needs="any", out="mixed")
 entry("cart_fin", "⟨7|8⟩ Ẋ", 1, 1, m_cart_fin, needs="any", out="list", first_only=True)
 
 NAMES = sorted(CAT)
@@ -398,7 +409,8 @@ def valid(stages):
         e = CAT.get(name)
         if e is None or not compatible(out, props, e) or (e["first_only"] and i > 0):
             return False
-        if i > 0 and CAT[stages[i - 1]]["first_only"]:
+        if i > 0 and (CAT[stages[i - 1]]["last_only"] or (CAT[stages[i - 1]]["first_only"] and
+                                                           stages[i - 1] not in ("filter_gt50",))):
             return False
         props = props & e["keeps"]
         out = out_type(out, e)
@@ -410,7 +422,7 @@ def need_of(stages, n):
     k = n
     for name in reversed(stages):
         e = CAT[name]
-        k = e["a"] * k + e["b"]
+        k = max(0, e["a"] * k + e["b"]) if k > 0 else 0  # nothing is needed for nothing
     return k
 
 
@@ -445,6 +457,7 @@ class C14(core.Check):
         "quick": dict(runs=60_000, batch=500, wall=80),
         "thorough": dict(runs=450_000, batch=500, wall=840),
     }
+    per_run_timeout = 60
     components_real = ["vyxal/LazyList.py", "vyxal/elements.py (the catalogued elements, vectorise, vy_map, vy_filter, "
                        "index, deep_copy paths)", "vyxal/helpers.py", "vyxal/transpile.py, lexer, parser (pipelines are "
                        "real program text)"]
@@ -457,7 +470,7 @@ class C14(core.Check):
         "density-sensitive transformations (filters, uniquify, remove, group) are only placed where the input stream "
         "keeps the property their bound needs",
     ]
-    rule = ("one run = a pipeline of 1-3 catalogued transformations (82 entries) applied by transpiled program text to an "
+    rule = ("one run = a pipeline of 1-3 catalogued transformations (88 entries) applied by transpiled program text to an "
             "instrumented infinite source, plus a demand schedule (index / first-n / stepping / resumption / two "
             "pipelines over `:`-copies pulled alternately / abandonment), n <= 40. distinct = distinct (pipeline(s), "
             "demand pattern, n); non-trivial = every run (each is judged on termination, pull bound and values).")
@@ -474,8 +487,9 @@ class C14(core.Check):
         for i in range(k):
             cands = [n for n in NAMES if compatible(out, props, CAT[n]) and not (CAT[n]["first_only"] and i > 0)]
             if i > 0:
-                # after a first_only stage nothing is chained (their bounds are not affine in the index)
-                if CAT[stages[-1]]["first_only"]:
+                # after a first_only stage nothing is chained (their bounds are not affine in the index), except the
+                # sparse-head filter, whose stream is dense again after its offset
+                if CAT[stages[-1]]["last_only"] or (CAT[stages[-1]]["first_only"] and stages[-1] != "filter_gt50"):
                     break
             name = r.choice(cands)
             e = CAT[name]
@@ -514,7 +528,22 @@ class C14(core.Check):
         mode, n = case["mode"], case["n"]
         if not A or n < 0 or (n == 0 and mode not in ("firstn", "slice_i")) or not valid(A) or (B and not valid(B)):
             return dict(verdict=DISCARD, sig="invalid-chain", log=[], steps=0, hist=None)
+        if n > 40 and (mode not in ("index", "firstn", "elem_i", "slice_i", "step", "resume")
+                       or any(CAT[x]["out"] in ("list", "mixed") or x in ("flatten", "map_sum") for x in A)):
+            n = 40  # threshold sizes only where the work per item does not itself grow with n
+        caps = [CAT[x]["max_n"] for x in A if CAT[x]["max_n"]]
+        if caps:
+            n = min(n, min(caps))
+            if mode == "resume":
+                case = dict(case, n1=min(case.get("n1", 1), n))
+            if mode == "abandon":
+                case = dict(case, k=min(case.get("k", 0), n))
+        if n != case["n"]:
+            case = dict(case, n1=min(case.get("n1", 1), n), k=min(case.get("k", 0), n))
         nb = case.get("nb", 0) if mode == "two" else 0
+        capsb = [CAT[x]["max_n"] for x in B if CAT[x]["max_n"]]
+        if capsb:
+            nb = min(nb, min(capsb))
         if mode == "two" and B:
             bound = max(bound_of(A, n), bound_of(B, nb))
         else:
@@ -538,7 +567,7 @@ class C14(core.Check):
         faults = {}
         w = world.World(inputs=[])
         w.stack.append(LL(source(), isinf=True))
-        tm = lambda v: world.to_model(v, LL)  # noqa
+        tm = lambda v: world.to_model(v, LL, 2000)  # noqa
         got = None
 
         def fail(clause, detail):
